@@ -103,10 +103,15 @@ def run(rep, db, tier):
     ex.model_path('zksync_consensus_network::mux::reusable_stream::WriteReusableStream::send_open', simple('send_open'))
 
     def acquire(e, n, a):
+        lim = deref_all(a[0])
         def respond(e2):
-            log().append(('permit_acquired',)); return ready(ok(PermitV()))
+            log().append(('permit_acquired', getattr(lim, 'tag', None))); return ready(ok(PermitV()))
         return EnvFuture('limiter.acquire', respond)
     ex.model_path('zksync_concurrency::limiter::Limiter::acquire', acquire)
+
+    def limiter_new(e, n, a):
+        log().append(('limiter_created',)); return Opaque('private_limiter')
+    ex.model_path('zksync_concurrency::limiter::Limiter::new', limiter_new)
 
     def permit_drop(e, n, a):
         v = a[0]
@@ -175,6 +180,10 @@ def run(rep, db, tier):
             viol.setdefault('reusable:no-permit', f'{side} stream: the OPEN exchange starts without a limiter permit for this cycle')
         elif pd is not None and pd < h:
             viol.setdefault('reusable:permit-released-early', f'{side} stream: the limiter permit of the cycle is released before the stream is handed over (the bucket refills while the offer is outstanding: a peer can bank stream offers)')
+        # the open-rate limit is PER CAPABILITY of a connection: every reusable stream of the queue draws its permit from the ONE
+        # limiter of the shared StreamQueue (a limiter per stream multiplies the configured rate by the number of streams)
+        if any(e[0] == 'limiter_created' for e in log_) or any(e[0] == 'permit_acquired' and len(e) > 1 and e[1] != 'q_limiter' for e in log_):
+            viol.setdefault('reusable:private-limiter', f'{side} stream: the permit of the cycle is not drawn from the limiter shared by all reusable streams of the capability (the stream creates or uses a limiter of its own: the configured open rate is multiplied by the number of streams)')
         if evs.count('permit_acquired') > evs.count('handed') + 1:
             viol.setdefault('reusable:permit-count', f'{side} stream: more than one limiter permit is taken per cycle')
     for k, text in viol.items():
